@@ -8,7 +8,7 @@ the corrmtx least-squares problem.  N up to 200 / orders up to 30: ObsC12.tla.
 import numpy as np
 
 from .. import core, material as M, tlc, obs
-from ..kern_util import call_guard, cmp_vec, cmp_scalar, entry_variants
+from ..kern_util import call_guard, cmp_vec, cmp_scalar, entry_variants, live_object_dev
 
 
 def replay_state(chk, st, cplx):
@@ -47,15 +47,18 @@ def replay_state(chk, st, cplx):
                 chk.violation('C12:aryule:%s:unstable' % mode, 'aryule returns |k|>=1 or P<=0 for x=%s' % (np.asarray(x).tolist(),), case)
         xa = np.asarray(xs[-1])
         # the estimator class exposes the same coefficients
-        ok, obj = call_guard(lambda: pyule(xa.copy(), p, NFFT=16))
-        if ok:
-            ok, _ = call_guard(lambda: obj.psd)
-        if not ok:
-            chk.violation('C12:pyule:%s:raises' % mode, 'pyule raises %r' % (obj if not ok else _,), {'x': xa, 'order': p})
-        else:
-            bad = cmp_vec(obj.ar, expA, name='pyule.ar') or cmp_vec(obj.reflection, expK, name='pyule.reflection')
-            if bad:
-                chk.violation('C12:pyule:%s:values' % mode, 'pyule(x=%s, %d): %s' % (xa.tolist(), p, bad), {'x': xa, 'order': p})
+        # the class exposes the same coefficients whatever the NFFT (larger, equal or smaller than the record)
+        for nfft in sorted({16, N, max(p + 1, N - 1)}):
+            ok, obj = call_guard(lambda: pyule(xa.copy(), p, NFFT=nfft))
+            if ok:
+                ok, _ = call_guard(lambda: obj.psd)
+            if not ok:
+                chk.violation('C12:pyule:%s:raises' % mode, 'pyule raises %r' % (obj if not ok else _,), {'x': xa, 'order': p, 'NFFT': nfft})
+            else:
+                bad = cmp_vec(obj.ar, expA, name='pyule.ar') or cmp_vec(obj.reflection, expK, name='pyule.reflection')
+                if bad:
+                    chk.violation('C12:pyule:%s:values%s' % (mode, ':NFFT<N' if nfft < N else ''),
+                                  'pyule(x=%s, %d, NFFT=%d): %s' % (xa.tolist(), p, nfft, bad), {'x': xa, 'order': p, 'NFFT': nfft})
         # least squares on the 'autocorrelation' data matrix
         ok, X = call_guard(corrmtx, xa.copy(), p, 'autocorrelation')
         if ok:
@@ -67,13 +70,24 @@ def replay_state(chk, st, cplx):
                               {'x': xa, 'order': p})
         # lpc (real data): same coefficients
         if not cplx:
-            ok, res = call_guard(lpc, xa.copy(), p)
-            if not ok:
-                chk.violation('C12:lpc:raises', 'lpc raises %r' % (res,), {'x': xa, 'order': p})
-            else:
-                bad = cmp_vec(np.asarray(res[0]), expA.real, tol=1e-7, name='lpc')
-                if bad:
-                    chk.violation('C12:lpc:values', 'lpc(x=%s, %d): %s' % (xa.tolist(), p, bad), {'x': xa, 'order': p})
+            for ename, xin, tol in entry_variants(xa, False, counter + p, full=True):
+                if isinstance(xin, list):
+                    continue                      # lpc needs an array (it uses ndarray methods)
+                ok, res = call_guard(lpc, xin.copy(), p)
+                if not ok:
+                    chk.violation('C12:lpc:raises:%s' % ename, 'lpc raises %r' % (res,), {'x': xa, 'order': p, 'entry': ename})
+                else:
+                    bad = cmp_vec(np.asarray(res[0]), expA.real, tol=max(tol, 1e-7) if tol < 1e-6 else 1e-4, name='lpc')
+                    if bad:
+                        chk.violation('C12:lpc:values:%s' % ename, 'lpc(x=%s as %s, %d): %s' % (xa.tolist(), ename, p, bad), {'x': xa, 'order': p, 'entry': ename})
+    if N >= 4:
+        xl = np.asarray(xs[-1])
+        ok, dev = call_guard(live_object_dev, lambda **kw: pyule(xl.copy(), **dict({'order': 2, 'NFFT': 8}, **kw)),
+                             [('ar_order', 1, 'order'), ('NFFT', 9, 'NFFT'), ('NFFT', 3, 'NFFT'), ('sampling', 2.0, 'sampling'), ('ar_order', 2, 'order')],
+                             outputs=('psd', 'ar', 'reflection'))
+        if not ok or (dev is not None and dev > 1e-7):
+            chk.violation('C12:pyule:%s:live-object' % mode, 'pyule after re-assigning ar_order / NFFT / sampling differs from a fresh object (%r)' % (dev,),
+                          {'x': xl})
     chk.replayed += 1
     chk.count('yulewalker-' + mode, 'replayed')
     if N == 4:
